@@ -221,7 +221,7 @@ struct visitor {
     template <class W> void operator()(W const& d, mapping const& m) {
         nav<W, mem_id> n(d, mem_id(), m.word());
         n.run(r, walk_len);
-        channel(d, m, std::integral_constant<bool, (ORG >= 1 && ORG <= 11 && ORG != 6)>());
+        channel(d, m, std::integral_constant<bool, ((ORG >= 1 && ORG <= 11 && ORG != 6) || ORG == 25 || ORG == 26)>());
     }
     template <class W> void channel(W const& d, mapping const& m, std::true_type) {
         auto cv = gil::nth_channel_view(d, (int)(m.steps.size() % pt::nch<typename W::value_type>::value));
